@@ -226,4 +226,98 @@ theorem complete_write_aux (s0 : FS) (path tmp : FName) (ino : Ino) (mode : Nat)
   generalize List.foldl step s0 (body tmp ino mode chunks) = s1 at htd hdat
   simp [step, htd, readNow, readFile, dirLookup, hdat]
 
+/-! ## litter: the only name a crash can leave behind is the temp file -/
+
+theorem dirLookup_dirRemove_some {d : Dir} {a n : FName} (h : dirLookup (dirRemove d a) n ≠ none) :
+    dirLookup d n ≠ none := by
+  induction d with
+  | nil => simpa [dirRemove, dirLookup] using h
+  | cons e r ih =>
+    obtain ⟨b, i⟩ := e
+    unfold dirRemove at ih h
+    by_cases hn : n = b
+    · simp [dirLookup, hn]
+    · by_cases hb : b = a
+      · simp [List.filter_cons, hb] at h
+        simpa [dirLookup, hn] using ih h
+      · simp [List.filter_cons, hb, dirLookup, hn] at h
+        simpa [dirLookup, hn] using ih h
+
+/-- Every name in the current or an earlier directory is the temp name, the target, or was there before. -/
+def Names (s0 s : FS) (path tmp : FName) : Prop :=
+  ∀ d, (d = s.dir ∨ d ∈ s.past) → ∀ n, dirLookup d n ≠ none → n = tmp ∨ n = path ∨ dirLookup s0.dir n ≠ none
+
+theorem names_past {s0 s : FS} {path tmp : FName} (h : Names s0 s path tmp) (d : Dir) (hd : d ∈ s.dir :: s.past) :
+    ∀ n, dirLookup d n ≠ none → n = tmp ∨ n = path ∨ dirLookup s0.dir n ≠ none := by
+  simp at hd
+  rcases hd with rfl | hd
+  · exact h _ (Or.inl rfl)
+  · exact h _ (Or.inr hd)
+
+theorem names_step {s0 s : FS} {path tmp : FName} {ino : Ino} {op : Sys} (h : Names s0 s path tmp)
+    (hop : TmpOnly tmp ino op ∨ op = Sys.rename tmp path) : Names s0 (step s op) path tmp := by
+  rcases hop with hop | rfl
+  · cases op with
+    | mkstemp t i =>
+      obtain ⟨rfl, rfl⟩ := hop
+      intro d hd n hn
+      simp only [step] at hd
+      rcases hd with rfl | hmem
+      · by_cases hnt : n = t
+        · exact Or.inl hnt
+        · simp [dirLookup, hnt] at hn
+          exact h _ (Or.inl rfl) n (dirLookup_dirRemove_some (by simpa using hn))
+      · exact names_past h d hmem n hn
+    | chmod t m => exact h
+    | write i bs => exact h
+    | fsync i => exact h
+    | close i => exact h
+    | rename a b => exact absurd hop (by simp [TmpOnly])
+    | unlink a => exact absurd hop (by simp [TmpOnly])
+  · intro d hd n hn
+    simp only [step] at hd
+    cases hl : dirLookup s.dir tmp with
+    | none =>
+      simp only [hl] at hd
+      exact h d hd n hn
+    | some i =>
+      simp only [hl] at hd
+      rcases hd with rfl | hmem
+      · by_cases hnp : n = path
+        · exact Or.inr (Or.inl hnp)
+        · simp [dirLookup, hnp] at hn
+          exact h _ (Or.inl rfl) n (dirLookup_dirRemove_some (dirLookup_dirRemove_some (by simpa using hn)))
+      · exact names_past h d hmem n hn
+
+theorem names_run {s0 : FS} {path tmp : FName} {ino : Ino} :
+    ∀ (ops : List Sys) (s : FS), Names s0 s path tmp →
+      (∀ op ∈ ops, TmpOnly tmp ino op ∨ op = Sys.rename tmp path) → Names s0 (run ops s) path tmp := by
+  intro ops
+  induction ops with
+  | nil => intro s h _; exact h
+  | cons op ops ih =>
+    intro s h hall
+    rw [run_cons]
+    exact ih _ (names_step h (hall op (by simp))) (fun o ho => hall o (by simp [ho]))
+
+theorem crash_leaves_only_tmp_aux (s0 : FS) (path tmp : FName) (ino : Ino) (mode : Nat) (chunks : List Bytes)
+    (hq : s0.past = [])
+    (pre : List Sys) (hpre : pre <+: atomicWrite path tmp ino mode chunks)
+    (d : Dir) (hd : d = (run pre s0).dir ∨ d ∈ (run pre s0).past) (n : FName) (hn : dirLookup d n ≠ none) :
+    n = tmp ∨ n = path ∨ dirLookup s0.dir n ≠ none := by
+  have h0 : Names s0 s0 path tmp := by
+    intro d hd n hn
+    rcases hd with rfl | hmem
+    · exact Or.inr (Or.inr hn)
+    · simp [hq] at hmem
+  have hall : ∀ op ∈ pre, TmpOnly tmp ino op ∨ op = Sys.rename tmp path := by
+    intro op hop
+    have := hpre.subset hop
+    rw [atomicWrite_eq] at this
+    simp at this
+    rcases this with hb | rfl
+    · exact Or.inl (body_tmpOnly tmp ino mode chunks op hb)
+    · exact Or.inr rfl
+  exact names_run pre s0 h0 hall d hd n hn
+
 end Icinga.C14
